@@ -292,6 +292,33 @@ pub fn run(case: &Value) -> Value {
             polls = p;
             (s, ra.unwrap_or_else(|e| json!({"err": err_class(&e)})))
         }
+        // box-hashed embeddable signing: the definition plus a c2pa.hash.boxes assertion, no asset involved
+        "embed_box" => {
+            let bh = json!({"alg": "sha256", "boxes": [
+                {"names": ["SOI"], "hash": vec![1u8; 32], "pad": []},
+                {"names": ["C2PA"], "hash": vec![0u8; 32], "pad": []},
+                {"names": ["EOI"], "hash": vec![2u8; 32], "pad": []}]});
+            let fin = |r: c2pa::Result<Vec<u8>>| -> Value {
+                match r {
+                    Ok(b) => json!({"ok": {"read": read_shape(settings, "application/c2pa", &b)}, "info": {"len": b.len()}}),
+                    Err(e) => json!({"err": err_class(&e)}),
+                }
+            };
+            let s = fin((|| {
+                let signer = e2e::signer(alg);
+                let mut b = builder(settings, &def)?;
+                b.add_assertion("c2pa.hash.boxes", &bh)?;
+                b.sign_box_hashed_embeddable(signer.as_ref(), "application/c2pa")
+            })());
+            let (ra, p) = block_on(async {
+                let signer = async_twin(alg, yields);
+                let mut b = builder(settings, &def)?;
+                b.add_assertion("c2pa.hash.boxes", &bh)?;
+                b.sign_box_hashed_embeddable_async(&signer, "application/c2pa").await
+            });
+            polls = p;
+            (s, fin(ra))
+        }
         // ingredient import through add_ingredient_from_stream(_async), then signed and read back
         "ingredient" => {
             let ing_fixture = case["ing_fixture"].as_str().unwrap_or("CA.jpg");
